@@ -66,6 +66,7 @@ def plan(prop, tier):
         "C06": [("algebra", {"C06"}, "any", "release",
                  [ops("five", ALLF, 200 if q else 2000, 3 if q else 4, 100 if q else 140),
                   ops("five", "teeth", 3000 if q else 20000, 3, 100),     # interlocking operands: cheap sessions, at volume
+                  ops("five", "cxshift,aff-cxshift,cxshift,lat", 600 if q else 6000, 3, 100),   # lattices shifted against each other: partial collinear overlaps on oblique lines, either operand starting first
                   ops("far", ALLF, 120 if q else 1000, 3, 100),
                   ops("deg", EXACT, 60 if q else 300)])],
         "C07": [("representation", {"C07"}, "any", "release",
@@ -92,17 +93,22 @@ def plan(prop, tier):
                   ops("pure", ALLF, 60 if q else 500, 3, 120), ops("pure", "latraw", 80 if q else 800, 3, 120), ops("repr", EXACT, 20 if q else 100, 3, 90),
                   ops("history", "cx,cxmix,cxshift,aff-cx", 8 if q else 60, 4, 200)])],
         "C03": [("returns-release", {"C03"}, "any", "release",
-                 [("fixtures",), ("rawcorpus", "ttouch.in"), corpus("ttouch_int.ndjson"), ops("single", "latraw", 600 if q else 6000, 3, 120), corpus("ulp.ndjson"), corpus("ulp_frames.ndjson"), corpus("fixed_findings.ndjson"), corpus("hand.ndjson"), corpus("fan_f32.ndjson"),
+                 [("fixtures",), ("rawcorpus", "ttouch.in"), ("rawcorpus", "runaway.in"), corpus("ttouch_int.ndjson"), ops("single", "latraw", 600 if q else 6000, 3, 120), corpus("ulp.ndjson"), corpus("ulp_frames.ndjson"), corpus("fixed_findings.ndjson"), corpus("hand.ndjson"), corpus("fan_f32.ndjson"),
                   ops("single", ALLF, 400 if q else 4000, 3 if q else 5, 140 if q else 240),
                   ops("deg", EXACT, 60 if q else 400), ops("chain", EXACT, 40 if q else 300, 3, 90),
                   tri(2, 840, 5 if q else 1, 3)]),
                 ("returns-debug-assertions", {"C03"}, "any", "dbg",
-                 [("fixtures",), ("rawcorpus", "ttouch.in"), corpus("ttouch_int.ndjson"), corpus("fixed_findings.ndjson"), corpus("hand.ndjson"),
+                 [("fixtures",), ("rawcorpus", "ttouch.in"), corpus("ttouch_int.ndjson"), corpus("ulp_f32_dbgpass.ndjson"), corpus("fixed_findings.ndjson"), corpus("hand.ndjson"),
                   ops("single", ALLF, 400 if q else 4000, 3 if q else 5, 140 if q else 240), ops("single", "latraw", 600 if q else 6000, 3, 120),
                   ops("deg", EXACT, 60 if q else 400), ops("far", EXACT, 40 if q else 300),
                   tri(2, 840, 5 if q else 1, 4)])],
     }
-    return P[prop]
+    steps = P[prop]
+    if not q:
+        # thorough: the cheap properties get proportionally more sessions (measured: 1-3 min each before)
+        f = {"C03": 3, "C04": 4, "C05": 4, "C06": 2, "C07": 3, "C08": 6, "C09": 3, "C10": 4, "C12": 3}.get(prop, 1)
+        steps = [(lb, lw, of, pr, [(b[0], b[1], b[2], b[3] * f) + tuple(b[4:]) if b[0] in ("ops", "prochist") else b for b in bs]) for (lb, lw, of, pr, bs) in steps]
+    return steps
 
 
 def record_step(prop, step_idx, label, profile, batches, seed, workdir):
@@ -292,6 +298,29 @@ def run(prop, tier, seed, t0):
         tot_gen += ra["generated"]
         tot_dist += ra["distinct"]
     big_events = []
+    combs = [("bool:%s:%s" % (sh, o), t, 8192) for t in ((18, 24, 40) if tier == "quick" else (18, 24, 40, 64, 100, 160)) for sh in ("combx", "combxfar") for o in ("int", "union", "diff", "xor")]
+    if prop in ("C01", "C09"):
+        # crossing combs: results with a closed form, projected to (polygon count, area) - the region
+        # contract and the far-part law at sizes the arrangement oracle cannot reach
+        import checks_splay
+        wd = os.path.join(vlib.OUT, prop, "big")
+        os.makedirs(wd, exist_ok=True)
+        path = os.path.join(wd, "stack.ndjson")
+        checks_splay.scenario(combs, path)
+        res2, sfails, _ = checks_splay.validate_stack(path, os.path.join(wd, "trace"), 1 << 30)
+        big_events = vlib.load_sessions(path)
+        os.makedirs(os.path.join(vlib.OUT, "replays"), exist_ok=True)
+        for (kind, i) in sorted(sfails, key=lambda x: x[1]):
+            e = big_events[i - 1]
+            p = os.path.join(vlib.OUT, "replays", "%s-%s-%d-%d.json" % (prop, e["scenario"].replace(":", "_"), e["n"], e["stack_kb"]))
+            json.dump(e, open(p, "w"))
+            log("VIOLATION property=%s replay=%s" % (prop, p))
+            log("  %s: scenario %s n=%d exit=%s polys=%d area2=%d popped=%d edges=%d" % (kind, e["scenario"], e["n"], e["exit"], e["polys"], e["area2"], e["popped"], e["size"]))
+            nviol += 1
+        tot_gen += res2["generated"]
+        tot_dist += res2["distinct"]
+        log("[%s] crossing-comb scenarios: %d child processes (up to %d input edges, %d result polygons), closed-form result contract: %d failures" % (
+            prop, len(big_events), max([e["size"] for e in big_events] + [0]), max([e["polys"] for e in big_events] + [0]), len(sfails)))
     if prop == "C03":
         # structured large inputs in child processes: must return (no abort / panic / budget overrun)
         import checks_splay
@@ -307,6 +336,7 @@ def run(prop, tier, seed, t0):
                    ("bool:comb_subject:diff", 200000, 8192), ("bool:comb:union", 100000, 8192), ("bool:steps:union", 250000, 8192), ("bool:steps:diff", 250000, 2048), ("bool:grid:union", 40000, 8192), ("bool:grid:xor", 40000, 2048),
                    ("bool:grid:int", 90000, 8192), ("bool:stair:int", 1000000, 8192), ("bool:stair:union", 1000000, 2048), ("bool:stair:diff", 1000000, 8192),
                    ("bool:hub:union", 300000, 8192), ("bool:hub_right:xor", 100000, 2048)]
+        scs += [c for c in combs if c[1] in (24, 100)]
         path = os.path.join(wd, "stack.ndjson")
         checks_splay.scenario(scs, path)
         res2, sfails, _ = checks_splay.validate_stack(path, os.path.join(wd, "trace"), 1 << 30)
